@@ -210,10 +210,11 @@ func RunProperty(repo string, cfg *PropertyConfig, kf *KnownFindingsFile, timeou
 				if os.Getenv("GOVC_DEBUG") != "" {
 					fmt.Fprintf(os.Stderr, "known-part %s status=%s candidate=%v solver=%s\n", o.Name, o.Status, o.Candidate, o.Solver)
 				}
-				// the part of a known finding: expected sat
-				if o.Status == "sat" || o.Candidate {
-					// (a candidate: satisfiable without the quantified assumptions; the finding itself was
-					// confirmed by replay on the real code when it was recorded)
+				// the part of a known finding: expected sat. It is reported unless it has been PROVED
+				// away (unsat: the recorded class can no longer fail — the defect is gone). "unknown"
+				// without a model (a loaded machine, quantified context) does not make a recorded,
+				// replay-confirmed finding disappear.
+				if o.Status != "unsat" {
 					cr.KnownHit = append(cr.KnownHit, o.KnownWhat)
 				}
 				continue
